@@ -2,6 +2,7 @@
 
 stdin: JSON list of items
   {"ufr": [base, url]}  -> {"ok": url_file_relative(base, url)} | {"exc": .., "msg": ..}
+  {"cli_root": text}   -> {"fetched": [raw urls], "exc": ..., "prefix": the CLI system prefix}  (fetchFn = bare._fetch_include)
   {"files": {canonical location: {"text": str} | {"raise": true}}, "root": text, "root_loc": str|null, "sysprefix": str|null,
    "have_fetch": bool, "track": [global names]}
         parse_script(root) + execute_script with a dict-backed fetchFn (looked up by c17_ref.canon of the requested url, the
@@ -88,11 +89,33 @@ def run_tree(case):
     return out
 
 
+def run_cli(case):
+    """`include <name>` of a shipped include through the CLI's own fetcher and system prefix"""
+    from bare_script import bare as bare_cli  # pylint: disable=import-outside-toplevel
+    fetched = []
+
+    def fetch_fn(request):
+        fetched.append(request['url'])
+        return bare_cli._fetch_include(request)  # pylint: disable=protected-access
+
+    out = {'exc': None}
+    try:
+        execute_script(parse_script(case['cli_root']), {'globals': {}, 'fetchFn': fetch_fn, 'logFn': lambda text: None,
+                                                        'systemPrefix': bare_cli._FETCH_INCLUDE_PREFIX})  # pylint: disable=protected-access
+    except Exception as exc:  # pylint: disable=broad-except
+        out['exc'] = {'type': type(exc).__name__, 'msg': str(exc)[:300]}
+    out['fetched'] = fetched
+    out['prefix'] = bare_cli._FETCH_INCLUDE_PREFIX  # pylint: disable=protected-access
+    return out
+
+
 def main():
     out = []
     for item in json.load(sys.stdin):
         try:
-            if 'ufr' in item:
+            if 'cli_root' in item:
+                out.append(run_cli(item))
+            elif 'ufr' in item:
                 base, url = item['ufr']
                 try:
                     out.append({'ok': url_file_relative(base, url)})
